@@ -329,6 +329,9 @@ structure Src where
   vps : Bytes
   /-- AudioSpecificConfig -/
   asc : Bytes
+  /-- the SPS has been validated (it decodes): a corrupt parameter set — a truncated packet, say —
+      is not one of "the stream's actual parameter sets" and no configuration is built from it -/
+  valid : Bool := true
   deriving Repr, DecidableEq
 
 def codecIdOf (c : VCodec) : Nat := if c = .h265 then 12 else 7
@@ -493,10 +496,10 @@ def checkMux (s : Src) (frames : List Frame) (bytes : Bytes) : Bool :=
      | ts => prefixThenMedia s 0 (frames.filter (carried s)) ts)
 
 /-- do the parameter sets suffice to build a decoder configuration record?  H.264: an SPS with
-    its profile/compatibility/level bytes and a PPS; H.265: VPS, SPS and PPS. -/
+    its profile/compatibility/level bytes and a PPS; H.265: VPS, SPS and PPS; the SPS validated. -/
 def Src.usable (s : Src) : Bool :=
-  if s.codec = .h265 then !s.vps.isEmpty && !s.sps.isEmpty && !s.pps.isEmpty
-  else decide (s.sps.length ≥ 4) && !s.pps.isEmpty
+  (if s.codec = .h265 then !s.vps.isEmpty && !s.sps.isEmpty && !s.pps.isEmpty
+   else decide (s.sps.length ≥ 4) && !s.pps.isEmpty) && s.valid
 
 /-- A decoder configuration "built from the stream's actual parameter sets" can only be written
     once these are known (from frame index `known` on; 0 when the SDP carried them), and no media
